@@ -414,4 +414,164 @@ theorem wrap_values (token : Str) (up : Bool) (h1 : Headers) (u : Identity)
       · simp at he
     rw [hrest, hauth]
 
+/-! ## what the upstream decodes -/
+
+/-- **The loss.** The key a kube-apiserver decodes from the header an extra key travels under is the key with its
+    ASCII upper-case letters lower-cased. -/
+theorem extra_key_decoded (k : Str) :
+    unescapeExtraKey (toLower ((canonicalKey (hImpExtraPrefix ++ headerKeyEscape k)).drop hImpExtraPrefix.length)) = toLower k := by
+  rw [extraName_eq, List.drop_left', toLower_canonLoop]
+  · simp [unescapeExtraKey, escape_lower_decodes]
+  · rfl
+
+theorem toLower_id_of_noUpper (k : Str) (h : k.all (fun c => !isUpper c) = true) : toLower k = k := by
+  induction k with
+  | nil => simp [toLower]
+  | cons c k ih =>
+    simp only [List.all_cons, Bool.and_eq_true, Bool.not_eq_true'] at h
+    simp only [toLower] at ih
+    simp [toLower, lowerByte, h.1, ih (by simpa using h.2)]
+
+theorem decodeExtras_append (a b : Headers) : decodeExtras (a ++ b) = decodeExtras a ++ decodeExtras b := by
+  induction a with
+  | nil => simp [decodeExtras]
+  | cons e a ih =>
+    obtain ⟨n, vs⟩ := e
+    by_cases h : hasPrefix n hImpExtraPrefix = true <;> simp [decodeExtras, h, ih]
+
+theorem decodeExtras_nil (h : Headers) (hp : ∀ e ∈ h, hasPrefix e.1 hImpExtraPrefix = false) : decodeExtras h = [] := by
+  induction h with
+  | nil => simp [decodeExtras]
+  | cons e a ih =>
+    obtain ⟨n, vs⟩ := e
+    have h1 : hasPrefix n hImpExtraPrefix = false := hp (n, vs) (by simp)
+    have h2 : ∀ e ∈ a, hasPrefix e.1 hImpExtraPrefix = false := fun e he => hp e (by simp [he])
+    simp [decodeExtras, h1, ih h2]
+
+theorem not_extraPrefix_of_not_imp {n : Str} (h : hasPrefix n hImpPrefix = false) : hasPrefix n hImpExtraPrefix = false := by
+  cases h' : hasPrefix n hImpExtraPrefix with
+  | false => rfl
+  | true => rw [hasPrefix_trans h' extraPrefix_imp] at h; exact absurd h (by simp)
+
+theorem values_flatMap_singletons (l : List (Str × List Str)) (f : Str → Str) (g : Str → Str) (k : Str) :
+    values (l.flatMap (fun e => e.2.map (fun v => (f e.1, [g v])))) k = values (l.map (fun e => (f e.1, e.2.map g))) k := by
+  induction l with
+  | nil => simp [values]
+  | cons e l ih =>
+    obtain ⟨n, vs⟩ := e
+    simp only [List.flatMap_cons, List.map_cons, values_append, ih]
+    congr 1
+    induction vs with
+    | nil => by_cases h : f n = k <;> simp [values, h]
+    | cons v vs ih2 =>
+      by_cases h : f n = k
+      · simp only [List.map_cons, values, h, if_true] at ih2 ⊢
+        simp [ih2]
+      · simp only [List.map_cons, values, h, if_false] at ih2 ⊢
+        simpa using ih2
+
+theorem decodeExtras_send_extras (up : Bool) (es : List (Str × List Str)) :
+    decodeExtras (sendOver up (es.flatMap (fun e => e.2.map (fun v => (canonicalKey (hImpExtraPrefix ++ headerKeyEscape e.1), [v]))))) =
+      es.flatMap (fun e => e.2.map (fun v => (toLower e.1, [carried up v]))) := by
+  induction es with
+  | nil => simp [sendOver_eq, decodeExtras]
+  | cons e es ih =>
+    obtain ⟨k, vs⟩ := e
+    simp only [List.flatMap_cons, sendOver_append, decodeExtras_append, ih]
+    congr 1
+    induction vs with
+    | nil => simp [sendOver_eq, decodeExtras]
+    | cons v vs ih2 =>
+      have hp : hasPrefix (canonicalKey (hImpExtraPrefix ++ headerKeyEscape k)) hImpExtraPrefix = true := by
+        rw [extraName_eq]; exact hasPrefix_append _ _
+      simp only [sendOver_eq, List.map_cons, decodeExtras, canonicalKey_idem, hp, if_true, extra_key_decoded] at ih2 ⊢
+      rw [ih2]
+      rfl
+
+theorem values_send_const (up : Bool) (N : Str) (l : List Str) (n : Str) :
+    values (sendOver up (l.map (fun g => (N, [g])))) n = if canonicalKey N = n then l.map (carried up) else [] := by
+  induction l with
+  | nil => simp [sendOver_eq, values]
+  | cons g l ih =>
+    simp only [sendOver_eq, List.map_cons, List.map_map] at ih ⊢
+    by_cases h : canonicalKey N = n <;> simp [values, h] at ih ⊢ <;> exact ih
+
+/-- **What is decoded.** Under the same conditions as `wrap_values`: the identity a kube-apiserver reconstructs from
+    what arrives is the context user with every value as the wire carries it and every extra key lower-cased. -/
+theorem decode_wrapped (token : Str) (up : Bool) (h1 : Headers) (u : Identity)
+    (I1 : ∀ e ∈ h1, canonicalKey e.1 = e.1) (I2 : ∀ e ∈ h1, e.1 ≠ hAuthorization)
+    (I3 : values h1 hImpUser = []) :
+    let recv := sendOver up (wrapRequest (if up then h1 else bearerAuth token h1) u)
+    values recv hImpUser = [carried up u.name] ∧ values recv hImpGroup = u.groups.map (carried up) ∧
+    ∀ k, values (decodeExtras recv) k = values (u.extra.map (fun e => (toLower e.1, e.2.map (carried up)))) k := by
+  intro recv
+  have hextraNames : ∀ n, hasPrefix n hImpExtraPrefix = false →
+      values (sendOver up (u.extra.flatMap (fun e => e.2.map (fun v => (hImpExtraPrefix ++ headerKeyEscape e.1, [v]))))) n = [] := by
+    intro n hn
+    apply values_send_nil
+    intro e he h
+    simp only [List.mem_flatMap, List.mem_map] at he
+    obtain ⟨x, _, v, _, rfl⟩ := he
+    have : hasPrefix (canonicalKey (hImpExtraPrefix ++ headerKeyEscape x.1)) hImpExtraPrefix = true := by
+      rw [extraName_eq]; exact hasPrefix_append _ _
+    rw [h, hn] at this
+    exact absurd this (by simp)
+  have hauth : ∀ n, n ≠ hAuthorization →
+      values (sendOver up (if up then [] else [(hAuthorization, [bearerPrefix ++ token])])) n = [] := by
+    intro n hn
+    apply values_send_nil
+    intro e he h
+    cases up
+    · simp at he; subst he; rw [canonicalKey_hAuthorization] at h; exact hn h.symm
+    · simp at he
+  refine ⟨?_, ?_, ?_⟩
+  · show values recv hImpUser = _
+    rw [wrap_values token up h1 u I1 I2 I3 hImpUser (by decide), gatewayHeaders_eq, sendOver_append, values_append,
+      hauth _ (by decide)]
+    simp only [gwSpecEntries, sendOver_append, values_append, hextraNames _ (by decide : hasPrefix hImpUser hImpExtraPrefix = false),
+      values_send_const]
+    have h1' : canonicalKey hImpGroup ≠ hImpUser := by decide
+    simp [sendOver_eq, values, canonicalKey_hImpUser, h1']
+  · show values recv hImpGroup = _
+    rw [wrap_values token up h1 u I1 I2 I3 hImpGroup (by decide), gatewayHeaders_eq, sendOver_append, values_append,
+      hauth _ (by decide)]
+    simp only [gwSpecEntries, sendOver_append, values_append, hextraNames _ (by decide : hasPrefix hImpGroup hImpExtraPrefix = false),
+      values_send_const]
+    have h1' : canonicalKey hImpUser ≠ hImpGroup := by decide
+    simp [sendOver_eq, values, canonicalKey_hImpGroup, h1']
+  · intro k
+    have hA : values h1 hAuthorization = [] := values_nil_of_forall _ _ I2
+    have hu2 : hget (if up then h1 else bearerAuth token h1) hImpUser = [] := by
+      apply get_nil_of_values
+      cases up
+      · have hb : bearerAuth token h1 = hdel h1 hAuthorization ++ [(hAuthorization, [bearerPrefix ++ token])] := by
+          simp [bearerAuth, get_nil_of_values hA, hset, canonicalKey_hAuthorization]
+        have : values [(hAuthorization, [bearerPrefix ++ token])] hImpUser = [] := by
+          apply values_nil_of_forall; intro e he; simp at he; subst he
+          show hAuthorization ≠ hImpUser
+          decide
+        simp [hb, values_append, this, values_del_ne _ _ _ (by decide : hImpUser ≠ hAuthorization), I3]
+      · simpa using I3
+    show values (decodeExtras (sendOver up (wrapRequest _ u))) k = _
+    rw [wrapRequest_eq _ _ hu2, sendOver_append, decodeExtras_append]
+    have hC : decodeExtras (sendOver up (hdel (delImpersonate (if up then h1 else bearerAuth token h1)) hImpUser)) = [] := by
+      apply decodeExtras_nil
+      intro e he
+      simp only [sendOver_eq, List.mem_map] at he
+      obtain ⟨x, hx, rfl⟩ := he
+      simp only [hdel, delImpersonate, List.mem_filter] at hx
+      exact not_extraPrefix_of_not_imp (by simpa using hx.1.2)
+    rw [hC, List.nil_append]
+    simp only [gwEntries, sendOver_append, decodeExtras_append, decodeExtras_send_extras]
+    have h1' : decodeExtras (sendOver up [(hImpUser, [u.name])]) = [] := by
+      apply decodeExtras_nil; intro e he; simp [sendOver_eq] at he; subst he
+      show hasPrefix (canonicalKey hImpUser) hImpExtraPrefix = false
+      decide
+    have h2' : decodeExtras (sendOver up (u.groups.map (fun g => (hImpGroup, [g])))) = [] := by
+      apply decodeExtras_nil; intro e he; simp [sendOver_eq] at he; obtain ⟨g, _, rfl⟩ := he
+      show hasPrefix (canonicalKey hImpGroup) hImpExtraPrefix = false
+      decide
+    rw [h1', h2']
+    simp [values_flatMap_singletons]
+
 end KG.Lemmas.Identity
